@@ -58,6 +58,7 @@ class Run:
         self.mc_runs = []        # per-run summaries
         self.traces_ok = 0       # reset-delimited recordings accepted by TLC
         self.traces_total = 0
+        self.notrun = 0
         self.events = 0
         self.distinct_nontrivial = 0
         self.rule = ""
@@ -176,6 +177,7 @@ class Run:
     def drive(self, args, timeout=1200, env=None):
         e = dict(os.environ)
         e["VERIF_SEED"] = str(self.seed)
+        e["VERIF_BADFILE"] = os.path.join(self.out, "badcount")
         if env:
             e.update({k: str(v) for k, v in env.items()})
         cmd = ["timeout", str(timeout), self.drive_bin] + [str(a) for a in args]
@@ -193,9 +195,32 @@ class Run:
         Returns (fails, lines) where fails is the list of rejected 1-based line numbers."""
         with open(trace_path) as f:
             lines = f.read().splitlines()
-        n = len(lines)
-        if n == 0:
+        if len(lines) == 0:
             raise MachineryError("empty trace " + trace_path)
+        # cases the sandbox did not run (after repeated confirmed hangs / crashes, sandbox.go): left out of the validation
+        if any('"ev":"notrun"' in ln for ln in lines):
+            kept, block, skip, dropped = [], [], False, 0
+            for ln in lines + [None]:
+                if ln is None or '"ev":"reset"' in ln or '"ev": "reset"' in ln:
+                    if block:
+                        if skip:
+                            dropped += 1
+                        else:
+                            kept += block
+                    block, skip = [], False
+                if ln is not None:
+                    block.append(ln)
+                    if '"ev":"notrun"' in ln:
+                        skip = True
+            lines = kept
+            trace_path = trace_path + ".ran"
+            with open(trace_path, "w") as f:
+                f.write("\n".join(lines) + "\n")
+            self.notrun += dropped
+            if expected_cases is not None:
+                expected_cases -= dropped
+            log("  [%s] %d cases were not run after repeated hangs or crashes of the real code" % (name, dropped))
+        n = len(lines)
         nreset = sum(1 for ln in lines if '"ev":"reset"' in ln or '"ev": "reset"' in ln)
         if expected_cases is not None and nreset != expected_cases:
             raise MachineryError("dead driver: %d recordings in %s, %d cases were generated" %
@@ -276,7 +301,7 @@ class Run:
             "rule": self.rule,
             "samples": self.samples[:8] if self.samples else [],
             "tlc_runs": self.mc_runs,
-            "bounds": self.bounds,
+            "bounds": dict(self.bounds, **({"cases_not_run_after_repeated_hangs": self.notrun} if self.notrun else {})),
             "coverage_zero_actions": self.coverage_zero,
             "model_drift": self.drift,
             "known_findings_reobserved": self.known_seen,
@@ -351,6 +376,8 @@ def _gen(self, name, specdirs, module, cfg, out_path, env=None, timeout=900, sim
         for f in ("ml", "sh", "api", "recv", "op", "ta", "tb", "opt", "valid"):
             if f in c and isinstance(c[f], (str, bool, int)):
                 key.append("%s=%s" % (f, c[f]))
+        if "off" in c:
+            key.append("far")
         k = " ".join(key)
         hist[k] = hist.get(k, 0) + 1
     self.extra.setdefault("case_histogram", {})[name] = dict(sorted(hist.items())[:60])
